@@ -436,13 +436,24 @@ def run(ctx: Context) -> None:
                 tname = tgt.value.id if isinstance(tgt.value, ast.Name) else None
                 idx = tgt.slice
                 same_idx = norm_text(idx) == norm_text(st_.value.args[0].args[0])
-                defs_ = [n for n in walk_no_nested(mf.node) if isinstance(n, ast.Assign) and isinstance(n.targets[0], ast.Name) and n.targets[0].id == tname and n.lineno < st_.lineno]
-                full = [n for n in defs_ if isinstance(n.value, ast.Call) and callee(ctx, mf, n.value) == 'numpy.full' and n.value.args]
-                masked = [n for n in defs_ if isinstance(n.value, ast.Call) and callee(ctx, mf, n.value) == 'numpy.ma.masked_array' and norm_text(kwarg(n.value, 'mask') or ast.Constant(None)) == 'True'
-                          and n.value.args and norm_text(n.value.args[0]) == tname]
-                shape = mflow.resolve(full[0].value.args[0]) if full else None
-                size = shape.elts[0] if isinstance(shape, ast.Tuple) and len(shape.elts) == 1 else None
-                ok = tname is not None and same_idx and len(full) == 1 and len(masked) == 1 and full[0].lineno < masked[0].lineno and size is not None
+                defs_ = [n for n in walk_no_nested(mf.node) if isinstance(n, (ast.Assign, ast.AnnAssign)) and isinstance(getattr(n, 'targets', [getattr(n, 'target', None)])[0], ast.Name)
+                         and getattr(n, 'targets', [getattr(n, 'target', None)])[0].id == tname and n.lineno < st_.lineno and n.value is not None]
+                # the table: masked_array(<numpy.full((size,), ...)>, mask=True), the filled array written in place, under its own name or the table's
+                made = [n for n in defs_ if isinstance(n.value, ast.Call) and callee(ctx, mf, n.value) == 'numpy.ma.masked_array'
+                        and norm_text(kwarg(n.value, 'mask') or ast.Constant(None)) == 'True' and n.value.args]
+                size = None
+                ok = False
+                if tname is not None and same_idx and len(made) == 1 and made[0] is defs_[-1]:
+                    src_ = made[0].value.args[0]
+                    filled = src_ if isinstance(src_, ast.Call) else None
+                    if isinstance(src_, ast.Name):
+                        cands_ = [n for n in walk_no_nested(mf.node) if isinstance(n, ast.Assign) and norm_text(n.targets[0]) == src_.id and n.lineno < made[0].lineno
+                                  and isinstance(n.value, ast.Call) and callee(ctx, mf, n.value) == 'numpy.full']
+                        filled = cands_[-1].value if cands_ else None
+                    if isinstance(filled, ast.Call) and callee(ctx, mf, filled) == 'numpy.full' and filled.args:
+                        shape = mflow.resolve(filled.args[0])
+                        size = shape.elts[0] if isinstance(shape, ast.Tuple) and len(shape.elts) == 1 else None
+                        ok = size is not None
                 ctx.check('R07.6', ok, "a numbering table is a fully masked table of the element count in which the kept positions get 0..n-1 in the order given", mf, st_,
                           construct=f"{norm_text(st_)[:100]}")
                 if ok:
